@@ -71,11 +71,41 @@ FIXED = [
      "`require (always A) implies B` (the reference's example) was a syntax error"),
     ("C11", "b22daa61", "dynamic-require:*|*",
      "temporal require executed in a compose block never monitored / AttributeError at top level"),
-    ("C11", "38fd1823", "until-*|as-rvltl-*",
-     "`next (a until b)` with a=FFF b=FTF rejected; `a until (a or eventually b)` rejected early (rv_ltl UntilMonitor)"),
+    ("C20", "0a62707c", "links|*:laneSection-raw-opendrive-id",
+     "Issue274 map (and any map after removing a road <link>): laneSection.successor returned a raw integer lane id"),
+    ("C07", "00c67287", "on:vol_dir_region*|*",
+     "`new Object at P, on reg` with reg = BoxRegion(..., onDirection=(1,0,0)): the region's default onDirection was never used"),
+    ("C06", "c0a70db8", "resolve:shadowed-same-priority|accepted-in-some-orders:expected-ambiguous",
+     "`at P, visible from A, not visible from B` accepted, same specifiers with `at P` last rejected (order-dependent ambiguity check)"),
+    ("C05", "8df0842c", "*floordiv*", "`x // 1` with float-valued random x returned x unrounded"),
+    ("C05", "6dd8a2b9", "*kwoperands*", "OperatorDistribution.evaluateInner NameError for keyword operands under lazy evaluation"),
+    ("C05", "c4536664", "*discreterange-lazy*", "DiscreteRange(self.a, self.b) as a class default never evaluated in context"),
+    ("C05", "78424eac", "*cross*", "Vector.cross NameError"),
+    ("C05", "11de494e", "*support*", "supportInterval(-X) / supportInterval(abs(X)) TypeError for unbounded X (e.g. Normal)"),
+    ("C05", "1c82544e", "*support*", "min/max with key=...: None looked up among keyword names"),
+    ("C05", "c660b19f", "*reverse*", "'abc' + random_str: AttributeError __radd__ at sample time"),
+    ("C05", "33a4d958", "*plus-tuple*", "VectorDistribution + (0,0,0) AttributeError in the zero-identity shortcut"),
 ]
 
 OPEN = [
+    ("F-C20-one-sided-links", "C20", "links|*-one-sided",
+     "lane links are resolved only from the side whose OpenDRIVE records list them, so successor/predecessor are not reciprocal on maps with one-sided link data (CulDeSac, borregasave, borregasave_old, Issue189)",
+     "findings/C20-one-sided-lane-links.py; the cause is one-sided map data the parser does not symmetrise; a symmetrising post-pass would create new dummy merge maneuvers - a design decision for the maintainers"),
+    ("F-C20-dead-end-connecting-a", "C20", "links|intersection:incoming.successor-not-connecting",
+     "an incoming lane is linked to a connecting lane that has no successor lane and later receives a bogus STRAIGHT 'merge' maneuver (Issue189, intersection18)",
+     "findings/C20-dead-end-connecting-lane.py; a candidate patch exists (findings/C20-dead-end-connecting-lane.fix.diff) but restructures the junction-linking loop of the OpenDRIVE parser and changes the networks built for such maps; left to the maintainers"),
+    ("F-C20-dead-end-connecting-b", "C20", "links|intersection:incoming-maneuver-not-listed",
+     "same root cause as F-C20-dead-end-connecting-a (the bogus maneuver is not listed by the intersection)",
+     "findings/C20-dead-end-connecting-lane.py"),
+    ("F-C11-rvltl-until-range", "C11", "until-under-temporal|as-rvltl-until-index-range",
+     "rv_ltl's UntilMonitor checks its left operand on the wrong index range when `until` is evaluated at an offset (`next (a until b)`, `always (a until b)`)",
+     "findings/C11-rvltl-until-index-range.py; third-party code (rv_ltl in site-packages). A corrected monitor inside Scenic (findings/C11-rvltl-until.fix.diff) was tried and withdrawn: it makes the step-0 verdict of `False until X` definitively false, so generation rejects where the repository's test_require_until_2 expects a rejection during simulation. Attributed only when the defect model of the oracle reproduces verdict and rejection step exactly."),
+    ("F-C11-rvltl-until-truthy", "C11", "until-with-temporal-rhs|as-rvltl-first-truthy-position",
+     "rv_ltl's UntilMonitor decides on the first position whose right operand is currently truthy (`a until (a or eventually b)` rejected early)",
+     "findings/C11-rvltl-until-premature-false.py; same third-party monitor, same reason for not repairing."),
+    ("F-C05-dict-literal", "C05", "*dict*",
+     "dict literals containing random values are never sampled (the scene holds the distribution object)",
+     "findings/C05-dict-literal-unsampled.py; the obvious repair (toDistribution lifting dicts) recurses forever on self-referential module namespaces passed through toDistribution by the translator and broke three repository tests, so it was withdrawn; a safe repair needs a design decision."),
     # id, property, signature pattern, title, repro / why not repaired
     ("F-C18-mutate-redrawn", "C18", "roundtrip:mutated-object|property-differs",
      "mutation noise of `mutate`d objects is drawn again when a scene is decoded",
